@@ -37,11 +37,11 @@ def run(tier):
         xv = next((v for v in ("x", "y", "z") if v in body_vars), None)
         c["_extras_var"] = xv
         if xv:
-            third = [[(xv, 3)]] if not quick else []
+            third = [[(xv, 3)]] if (not quick or c.get("corpus")) else []
             c["goals"] = [[(xv, 1)], [(xv, 2)]] + third + [g for g in c["goals"] if g not in ([(xv, 1)], [(xv, 2)], [(xv, 3)])][:2]
         tasks.append({"fn": "harness.tasks.afterloop:after_loop",
                       "args": {"text": c["text_used"], "goals": [[[x, k] for x, k in g] for g in c["goals"]],
-                               "subs": polar_subs(c), "nmax": nmax, "extras_var": xv, "extras_third": not quick}})
+                               "subs": polar_subs(c), "nmax": nmax, "extras_var": xv, "extras_third": (not quick) or bool(c.get("corpus"))}})
     outs = run_tasks(tasks, timeout=75 if quick else 240, progress=50) if lean_ok else []
     reqs = []
     for c in cases:
@@ -126,38 +126,60 @@ def run(tier):
     lim_ans = model_batch_parallel(lim_reqs) if lim_reqs else []
     ok_lim = 0
     raw_limits = {}
+    INF = "infinite"
     for (c, g), a in zip(lim_meta, lim_ans):
         if a.get("ok") and a.get("kind") == "finite":
             raw_limits[(id(c), json.dumps(g["mono"]))] = Fr(a["value"])
+        elif a.get("ok") and a.get("kind") == "infinite":
+            raw_limits[(id(c), json.dumps(g["mono"]))] = INF
     # central moments / cumulants after the loop from the raw limits
     for c, out in zip(cases, outs):
         xv = c.get("_extras_var")
         if not xv or out["status"] != "ok" or not out["result"].get("accepted") or "extras" not in out["result"]:
             continue
         L = [raw_limits.get((id(c), json.dumps([[xv, k]]))) for k in (1, 2, 3)]
-        if L[0] is None or L[1] is None:
+        if L[0] is None or L[1] is None or L[0] == INF:
             continue
-        want = {"central2": L[1] - L[0] ** 2, "cumulant2": L[1] - L[0] ** 2}
-        if L[2] is not None:
-            k3 = L[2] - 3 * L[0] * L[1] + 2 * L[0] ** 3
-            want["cumulant3"] = k3
-            want["central3"] = k3
+        want = {}
+        if L[1] == INF:
+            # finite mean, divergent second moment: the variance at loop exit is infinite and has to be reported as such
+            want = {"central2": INF, "cumulant2": INF}
+            if L[2] == INF:
+                # the third raw moment dominates the divergent lower ones
+                want["central3"] = INF
+                want["cumulant3"] = INF
+        else:
+            want = {"central2": L[1] - L[0] ** 2, "cumulant2": L[1] - L[0] ** 2}
+            if L[2] == INF:
+                want["cumulant3"] = INF
+                want["central3"] = INF
+            elif L[2] is not None:
+                k3 = L[2] - 3 * L[0] * L[1] + 2 * L[0] ** 3
+                want["cumulant3"] = k3
+                want["central3"] = k3
         for key, w in want.items():
             tag, val = out["result"]["extras"].get(key, ("missing", ""))
             if tag == "error":
                 chk.count("after-loop-extra:refused:" + str(val))
                 continue
             chk.count("after-loop-extra-goals")
-            if tag != "q" or Fr(val) != w:
-                rec = {"case": c, "goal": key, "reported": (tag, val), "exact": H.fr_str(w)}
+            if w == INF:
+                okv = tag == "infinite"
+                wtxt = "infinite"
+            else:
+                okv = tag == "q" and Fr(val) == w
+                wtxt = H.fr_str(w)
+            if not okv:
+                w = wtxt
+                rec = {"case": c, "goal": key, "reported": (tag, val), "exact": wtxt}
                 fid = attribute(PROP, rec)
                 if fid:
                     chk.known(fid[0], fid[1])
                 else:
-                    chk.violation(f"after-loop {key}({xv}) reported {val} ({tag}), the exit-state value is {H.fr_str(w)}",
+                    chk.violation(f"after-loop {key}({xv}) reported {val} ({tag}), the exit-state value is {w}",
                                   {"case": pipeline.case_to_json(c), "text": c["text_used"], "goal": f"{key}({xv})",
-                                   "reported": [tag, val], "exact": H.fr_str(w),
-                                   "raw_limits": [None if x is None else H.fr_str(x) for x in L]})
+                                   "reported": [tag, val], "exact": w,
+                                   "raw_limits": [None if x is None else (x if x == INF else H.fr_str(x)) for x in L]})
     for (c, g), a in zip(lim_meta, lim_ans):
         if not a.get("ok"):
             chk.count("limit-model-refused")
